@@ -121,3 +121,30 @@ func c19Target(info *types.Info, e ast.Expr) types.Object {
 	}
 	return nil
 }
+
+// returnsBound: the expression a return hands back denotes bound b: the bound itself, or a result variable every
+// assignment of which in fi gives it that bound (single exit: `result = upper; break … return result, nil`).
+func (m *c19Model) returnsBound(fi *FuncInfo, e ast.Expr, b types.Object) bool {
+	if m.boundOf(e) == b {
+		return true
+	}
+	v, ok := objOf(m.info, ast.Unparen(e)).(*types.Var)
+	if !ok || v.IsField() || c19IsParam(fi, v) {
+		return false
+	}
+	n, good := 0, true
+	ast.Inspect(fi.Decl.Body, func(x ast.Node) bool {
+		ts, rs := c19DefTargets(m.info, x)
+		for i, t := range ts {
+			if t != v {
+				continue
+			}
+			n++
+			if rs[i] == nil || !(m.boundOf(rs[i]) == b || m.info.Types[rs[i]].IsNil()) {
+				good = false
+			}
+		}
+		return true
+	})
+	return n > 0 && good
+}
